@@ -441,8 +441,10 @@ func (m *Muxer) Close() {
 	m.mutex.Lock()
 	m.closed = true
 	m.mutex.Unlock()
+	verifPoint("close.afterMark")
 
 	m.cond.Broadcast()
+	verifPoint("close.afterBroadcast")
 
 	for _, stream := range m.streams {
 		stream.close()
@@ -534,6 +536,7 @@ func (m *Muxer) rotateParts(nextDTS time.Duration) error {
 		return err
 	}
 
+	verifPoint("rotate.beforeBroadcast")
 	m.cond.Broadcast()
 
 	return nil
@@ -571,6 +574,7 @@ func (m *Muxer) rotateSegments(
 		return err
 	}
 
+	verifPoint("rotate.beforeBroadcast")
 	m.cond.Broadcast()
 
 	return nil
